@@ -3,6 +3,7 @@
 cd "$(dirname "$0")/.."
 [ -n "$VP_RUN_REPO" ] && export VERIF_REPO="$VP_RUN_REPO"
 ./setup.sh || exit 2
+export VERIF_SEED=${1:-0}
 for i in 01 02 03 04 05 06 07 08 09 10 11 12 13 14 15 16 17 18 19; do echo C$i; done | \
   xargs -P 4 -I{} sh -c "/usr/bin/time -f '{} %es' ./check {} thorough > /tmp/thorough.{}.log 2>&1; rc=\$?; [ \$rc -ne 0 ] && echo \"ALARM {} rc=\$rc\" && grep -h 'VIOLATION' /tmp/thorough.{}.log | head -3; tail -n 2 /tmp/thorough.{}.log"
 echo thorough done
